@@ -1013,6 +1013,41 @@ theorem redirect_without_target_returned (follow : Bool) (code : Nat) (h : Dic) 
     followsRedirect follow code h = false := by
   unfold followsRedirect; rw [hl]; simp
 
+/-! ## a request object that is sent again (seed C10-r4)
+
+Between two sends the caller's `HttpRequest` keeps its header dictionary: the `Content-Length` an earlier `put()` set (stale
+when the body changed since), or none when an earlier chunked send removed it (`sendHeaders`).  `Http::request` derives the
+framing headers again before every send (`clientMsg`: the block the seed removed), so a send does not depend on them. -/
+
+/-- **reused_request_message.**  Whatever `Content-Length` text `v` the object carries from earlier sends, the message
+`Http::request` builds for a non-empty body is the message of a fresh object with the same headers and body -/
+theorem reused_request_message (method target host : Bytes) (port : Nat) (hs : Dic) (v body : Bytes) (hv : v ≠ []) (hb : body ≠ []) :
+    clientMsg method target host port true (setHeader hs sContentLength v) body = clientMsg method target host port true hs body := by
+  have hl : body.length ≠ 0 := fun h => hb (List.eq_nil_of_length_eq_zero h)
+  unfold clientMsg
+  simp only [hl, ne_eq, not_false_eq_true, if_true]
+  rw [setHeader_of_value hv, setHeader_of_value (utoa_ne_nil _), setHeader_of_value (utoa_ne_nil _), dicSet_dicSet_same]
+
+/-- **reused_request_length_rederived.**  For ANY dictionary `d` the object is left with (a length removed by a chunked
+send, a stale one, other headers in any state): a non-empty body goes out with `Content-Length` = its length -/
+theorem reused_request_length_rederived (method target host : Bytes) (port : Nat) (d : Dic) (body : Bytes) (hb : body ≠ []) :
+    header (clientMsg method target host port true d body).headers sContentLength = utoa body.length := by
+  have hl : body.length ≠ 0 := fun h => hb (List.eq_nil_of_length_eq_zero h)
+  unfold clientMsg header
+  simp only [hl, ne_eq, not_false_eq_true, if_true]
+  rw [dicGet_setHeader_same _ _ _ (utoa_ne_nil _)]; rfl
+
+/-- **reused_request_roundtrip.**  `request_roundtrip` for an object sent again with a length: the handler's reader returns
+exactly the method, target, headers and body of THIS send, for every fragmentation, whatever length an earlier send left -/
+theorem reused_request_roundtrip (method target host : Bytes) (port : Nat) (hs : Dic) (v body rest : Bytes) (cuts : List Nat)
+    (h : WFRequest method target host port hs body) (hv : v ≠ []) (hb : body ≠ []) :
+    ∃ (q : Request) (i' : Inp),
+      readRequest (Inp.ofBytes (serialize (clientMsg method target host port true (setHeader hs sContentLength v) body) ++ rest) cuts) = (q, i') ∧
+      i'.data = rest ∧ Live i' ∧
+      SeesRequest q method target (wireHeaders method target host port hs body) body := by
+  rw [reused_request_message _ _ _ _ _ _ _ hv hb]
+  exact request_roundtrip method target host port hs body rest cuts h
+
 /-! ## the hypotheses are satisfiable (no vacuous theorem) -/
 
 /-- `GET /a?x=1` to 127.0.0.1:8080 with header `X-A: v 1` and the 3-byte body NUL CR LF -/
@@ -1072,5 +1107,10 @@ example : HandlerHeaders [([88, 45, 65], [118, 32, 49])] := by
 example : ReturnedAsIs 404 [] ∧ ReturnedAsIs 302 [] ∧ ¬ ReturnedAsIs 302 [(sLocation, [47, 98])] := by unfold ReturnedAsIs; decide
 
 example : rangeOf 20 5 9 = some (5, 9) := by decide
+
+/-- a request object sent again: the example request with a stale `Content-Length: 99` left in the object goes out with `3` -/
+example : ([57, 57] : Bytes) ≠ [] ∧ exampleSent.body ≠ [] := by decide
+example : header (clientMsg exampleSent.method exampleSent.target exampleSent.host exampleSent.port true
+    (setHeader exampleSent.hs sContentLength [57, 57]) exampleSent.body).headers sContentLength = [51] := by decide
 
 end C10
